@@ -302,6 +302,12 @@ func sameBase(a, b ssa.Value) bool {
 
 // checkOptNil applies the rule to the given consumer functions.
 func checkOptNil(c *core.Ctx, rule string, u *astUniverse, funcs []*ssa.Function) {
+	checkOptNilSinks(c, rule, u, funcs, nil)
+}
+
+// checkOptNilSinks: as checkOptNil; additionally a static call of a function accepted by extraSink with the
+// loaded optional value as an argument counts as a use that needs the non-nil guard.
+func checkOptNilSinks(c *core.Ctx, rule string, u *astUniverse, funcs []*ssa.Function, extraSink func(*ssa.Function) bool) {
 	o := getOptNil(c.Prog, u)
 	var optNames []string
 	for f, why := range o.optional {
@@ -329,6 +335,15 @@ func checkOptNil(c *core.Ctx, rule string, u *astUniverse, funcs []*ssa.Function
 				}
 				key := fmt.Sprintf("%s|%s.%s", core.FnName(fn), u.fieldOwner[f], f.Name())
 				uses := derefUses(o, ld)
+				if extraSink != nil {
+					for _, r := range valueUses(ld) {
+						if ci, ok := r.(ssa.CallInstruction); ok {
+							if cal := ci.Common().StaticCallee(); cal != nil && extraSink(cal) {
+								uses = append(uses, r)
+							}
+						}
+					}
+				}
 				if len(uses) == 0 {
 					continue
 				}
